@@ -180,6 +180,7 @@ PROPS = {
                               'C03_quantized_in_place_tensor_gets_selected_dtype',
                               'C03_every_consumer_gets_its_planned_transformations',
                               'C03_readers_of_a_tensor_without_instruction_are_unchanged',
+                              'C03_readers_of_a_tensor_quantized_only_in_place_are_unchanged',
                               'C03_listed_consumers_read_the_inserted_tensor_until_the_end',
                               'C03_single_insertion_is_read_by_exactly_the_listed_operators',
                               'C03_generator_invents_no_instruction', 'C03_mode_table', 'C03_policy_configs_have_a_mode',
